@@ -408,6 +408,19 @@ def fam_listfind(v, n):
                 ops.append({"op": "sid_call", "from": {"s": item}, "m": "match", "search": s})
             if rng.random() < 0.08:
                 ops.append({"op": "glob_match", "pat": s.split("?")[0], "item": rng.choice(L)})
+        # an entry the configuration does not know (a closed-vocabulary segment replaced), placed BEFORE
+        # the entry it was made from, and the star search that matches both: the first result is untyped
+        typed_entries = [e for e in L if e.count("/") >= 2]
+        if typed_entries:
+            e = rng.choice(typed_entries)
+            segs = e.strip().split("/")
+            i = rng.randrange(1, len(segs))
+            junk_entry = "/".join(segs[:i] + [rng.choice(["zzjunk", "vehicle", segs[i] + "\n", "x:y"])] + segs[i + 1:])
+            L2 = list(L)
+            L2.insert(L2.index(e), junk_entry)
+            star = "/".join(segs[:i] + ["*"] + segs[i + 1:])
+            for m in ("exists", "find_one", "find"):
+                ops.append({"op": "find_list", "l": L2, "s": star, "m": m, **flags})
         # match of entries against star searches built from themselves (any segment, the type code too)
         for label, fields in leaves[:3]:
             segs = [val for _, val in fields]
@@ -585,6 +598,11 @@ def constant_searches(v, leaves, k):
         x = rng.random()
         if x < 0.55 and len(values) > 1:
             alts = rng.sample(values, rng.randint(2, min(3, len(values))))
+            y = rng.random()
+            if y < 0.25:        # overlapping alternatives: '*' next to a value, or a value twice
+                alts.insert(rng.randrange(len(alts) + 1), "*")
+            elif y < 0.4:
+                alts.append(alts[0])
             segs[-1] = ",".join(alts)
         elif x < 0.75:
             segs[-1] = "*"
@@ -620,6 +638,11 @@ def fam_tree(v, n, model):
             if cs and (label, cs[0]) not in leaves:
                 leaves.append((label, cs[0]))
                 confusing.append(cs[1])
+        import oracle_inputs as _oi
+        extra_l, pairs = _oi.lopsided(v, leaves, tuples=True)
+        for lf in extra_l:
+            if lf not in leaves:
+                leaves.append(lf)
         ops += materialise(v, wid, leaves, cfg)
         if rng.random() < 0.5:   # junk
             ask = [{"op": "sid_call", "from": {"s": "/".join(val for _, val in f)}, "m": "path", "config": cfg} for _, f in leaves]
@@ -654,7 +677,14 @@ def fam_tree(v, n, model):
             else:
                 ops.append({"op": "world", "w": wid, "do": "find_paths", "s": s, "config": rng.choice(configs)})
         for s in constant_searches(v, leaves, 6):
+            if rng.random() < 0.5:      # the path Finder asked first about a level it does not serve
+                ops.append({"op": "world", "w": wid, "do": "find_paths", "s": s, "config": cfg})
             ops.append({"op": "world", "w": wid, "do": "find_all", "s": s})
+        # '>' with a concrete extension, a FindInAll of another configuration name, then '>' with the alias
+        for s1, s2, _i in pairs:
+            ops.append({"op": "world", "w": wid, "do": "find_all", "s": s1})
+            ops.append({"op": "world", "w": wid, "do": "find_all", "s": rng.choice([s1, "*"]), "all_config": rng.choice(["review", "x"])})
+            ops.append({"op": "world", "w": wid, "do": "find_all", "s": s2})
         for s in confusing:     # a file whose NAME fits the name pattern of a search it does not match
             ops.append({"op": "world", "w": wid, "do": "find_paths", "s": s, "config": cfg})
             ops.append({"op": "world", "w": wid, "do": "find_all", "s": s})
